@@ -1445,6 +1445,10 @@ def destroyGlobalNuclides():
     global byAAAZZZSId
 
     instances = []
+    # the elements outlive the nuclides: they must not keep listing the destroyed objects (the new ones
+    # compare equal to them and would never be appended)
+    for element in elements.byZ.values():
+        element.nuclides = []
     byName.clear()
     byDBName.clear()
     byLabel.clear()
